@@ -51,3 +51,82 @@ Proof.
   - repeat constructor.
   - repeat (apply LWs; [reflexivity|]). constructor.
 Qed.
+
+(** ------------------------------------------------------------------------------------------
+    Converse direction: the layout rule drops NOTHING BUT layout.  [layoutE] is [layout] plus a
+    last comment closed by the end of the file (END <- EOL / EOF). *)
+
+Inductive layoutE : list Z -> Prop :=
+| ENil : layoutE []
+| EWs c w : is_ws c = true -> layoutE w -> layoutE (c :: w)
+| ECom m body e w : is_marker m = true -> Forall (fun b => is_eol b = false) body -> is_eol e = true -> layoutE w ->
+                    layoutE (m :: body ++ e :: w)
+| EComEof m body : is_marker m = true -> Forall (fun b => is_eol b = false) body -> layoutE (m :: body).
+
+Lemma skip_chars_split bs : exists body, Forall (fun b => is_eol b = false) body /\ bs = body ++ skip_chars bs
+  /\ (match skip_chars bs with [] => True | e :: _ => is_eol e = true end).
+Proof.
+  induction bs as [|b r IH].
+  - exists []. repeat split; constructor.
+  - cbn [skip_chars]. destruct (is_eol b) eqn:Hb.
+    + exists []. repeat split; [constructor | exact Hb].
+    + destruct IH as [body [Hf [He Ht]]]. exists (b :: body). repeat split.
+      * constructor; assumption.
+      * cbn [app]. f_equal. exact He.
+      * exact Ht.
+Qed.
+
+Definition token_start (rest : list Z) : Prop :=
+  match rest with [] => True | b :: _ => is_ws b = false /\ is_marker b = false end.
+
+Theorem skip_only_layout : forall fuel bs, (length bs <= fuel)%nat ->
+  exists w, layoutE w /\ bs = w ++ skip_layout fuel bs /\ token_start (skip_layout fuel bs).
+Proof.
+  induction fuel as [|f IH]; intros bs Hl.
+  - destruct bs; [|simpl in Hl; lia]. exists []. repeat split; constructor.
+  - destruct bs as [|b r]; [exists []; repeat split; constructor|].
+    cbn [skip_layout]. simpl in Hl.
+    destruct (is_ws b) eqn:Hw.
+    + destruct (IH r ltac:(lia)) as [w [Hlw [He Ht]]]. exists (b :: w). repeat split.
+      * constructor; assumption.
+      * cbn [app]. f_equal. exact He.
+      * exact Ht.
+    + destruct (is_marker b) eqn:Hm.
+      * destruct (skip_chars_split r) as [body [Hf [Hr Hhd]]].
+        destruct (skip_chars r) as [|e r'] eqn:Hs.
+        -- cbn [skip_end]. exists (b :: body). destruct f; cbn [skip_layout]; repeat split;
+             try (apply EComEof; assumption); try (rewrite app_nil_r in *; f_equal; exact Hr).
+        -- cbn [skip_end]. rewrite Hhd.
+           assert (Hlen : (length r' <= f)%nat).
+           { rewrite Hr in Hl. rewrite app_length in Hl. simpl in Hl. lia. }
+           destruct (IH r' Hlen) as [w [Hlw [He Ht]]]. exists (b :: body ++ e :: w). repeat split.
+           ++ apply ECom; assumption.
+           ++ cbn [app]. f_equal. rewrite <- app_assoc. cbn [app]. rewrite <- He. exact Hr.
+           ++ exact Ht.
+      * exists []. repeat split; [constructor | exact Hw | exact Hm].
+Qed.
+
+Lemma skip_chars_noeol body : Forall (fun b => is_eol b = false) body -> skip_chars body = [].
+Proof. induction 1 as [|b r Hb Hr IH]; [reflexivity|]. cbn [skip_chars]. now rewrite Hb. Qed.
+
+Lemma marker_not_ws m : is_marker m = true -> is_ws m = false.
+Proof. unfold is_marker, is_ws. intros Hm. apply orb_prop in Hm as [Hm|Hm]; apply Z.eqb_eq in Hm; subst m; reflexivity. Qed.
+
+(** a file that ends inside layout (last comment closed by the end of the file included) is consumed to the end *)
+Theorem layoutE_absorbed_eof : forall w, layoutE w -> forall fuel, (length w <= fuel)%nat -> skip_layout fuel w = [].
+Proof.
+  induction 1 as [|c w Hc Hw IH|m body e w Hm Hb He Hw IH|m body Hm Hb]; intros fuel Hf.
+  - destruct fuel; reflexivity.
+  - destruct fuel as [|f]; [simpl in Hf; lia|]. cbn [skip_layout]. rewrite Hc. apply IH. simpl in Hf; lia.
+  - destruct fuel as [|f]; [simpl in Hf; lia|]. cbn [skip_layout]. rewrite (marker_not_ws m Hm), Hm.
+    destruct (skip_chars_split (body ++ e :: w)) as [b2 [_ _]].
+    assert (Hs : skip_chars (body ++ e :: w) = e :: w).
+    { clear -Hb He. induction Hb as [|b r Hb Hr IH]; cbn [app skip_chars]; [now rewrite He | now rewrite Hb]. }
+    rewrite Hs. cbn [skip_end]. rewrite He. apply IH.
+    simpl in Hf. rewrite app_length in Hf. simpl in Hf. lia.
+  - destruct fuel as [|f]; [simpl in Hf; lia|]. cbn [skip_layout]. rewrite (marker_not_ws m Hm), Hm.
+    rewrite (skip_chars_noeol body Hb). cbn [skip_end]. destruct f; reflexivity.
+Qed.
+
+Lemma layout_layoutE w : layout w -> layoutE w.
+Proof. induction 1; [constructor | apply EWs; assumption | apply ECom; assumption]. Qed.
